@@ -8,6 +8,7 @@
 import Gama.Props.C20.ProjectEquationsReachable
 import Gama.Lemmas.PeWitnessReal
 import Gama.Lemmas.PeWitnessSub
+import Gama.Lemmas.PeWitnessSub3
 namespace Gama.Props.C20
 open Gama Gama.Ls Gama.Ls.Net Gama.LS Gama.NetDecision Gama.PE Gama.C06NZ Gama.C06NZ.Ex Matrix
 
@@ -36,6 +37,28 @@ theorem C20_subconfigurations_of_netWobs :
   ⟨rfl, fun n h => by
     obtain ⟨zA, zB, zC, rfl, hA, hB, hC⟩ := subOf_dcfg n h
     exact ⟨zA, zB, zC, rfl, hA, hB, hC, withStatuses_cfg zA zB zC⟩⟩
+
+/-- **`NetHyp .gso` on 6 of the 8 sub-configurations of `netWobs`**, each on the EVALUATED output of `project_equations()`:
+    the given configuration, `(fixed, unused, free)` (one row `A→C`), and the four on which no observation survives the
+    revision (empty system).  NOT covered: `(fixed, constrained, unused)` (one row `A→B`, active pattern `[t,f,f]`) and
+    `(unused, constrained, free)` (one row `B→C`, `activeCov() = [40]`) -/
+theorem C20_nethyp_subconfigurations_pe_witness (zA zB zC : CStat)
+    (hA : zA = .fixed ∨ zA = .unused) (hB : zB = .constrained ∨ zB = .unused) (hC : zC = .free ∨ zC = .unused)
+    (hnot : ¬ (zA = .fixed ∧ zB = .constrained ∧ zC = .unused) ∧ ¬ (zA = .unused ∧ zB = .constrained ∧ zC = .free))
+    (np : NetProblem ℝ) (hp : (peWorld netWobs (dcfg zA zB zC)).prob = some np) : NetHyp .gso np := by
+  by_cases he : (zA = .unused ∧ zB = .unused) ∨ (zA = .unused ∧ zC = .unused) ∨ (zB = .unused ∧ zC = .unused)
+  · exact empty_cfg_netHyp zA zB zC he hA hB hC np hp
+  · rcases hA with rfl | rfl <;> rcases hB with rfl | rfl <;> rcases hC with rfl | rfl
+    · have h : projectEquations (withStatuses netWobs (dcfg .fixed .constrained .free)) = .ok (npO, uO) := peO
+      rw [peWorld_prob_eq netWobs _ _ _ h np hp]
+      exact C20_nethyp_given_configuration_pe_witness.2
+    · exact absurd ⟨rfl, rfl, rfl⟩ hnot.1
+    · exact cfg3_netHyp np hp
+    · exact absurd (Or.inr (Or.inr ⟨rfl, rfl⟩)) he
+    · exact absurd ⟨rfl, rfl, rfl⟩ hnot.2
+    · exact absurd (Or.inr (Or.inl ⟨rfl, rfl⟩)) he
+    · exact absurd (Or.inl ⟨rfl, rfl⟩) he
+    · exact absurd (Or.inl ⟨rfl, rfl⟩) he
 
 end witness
 
